@@ -1,0 +1,35 @@
+//go:build verif
+
+package gov
+
+// Contracts for the verification machinery in /verif (comment-only file; no code).
+//
+// verif:import types github.com/cosmos/cosmos-sdk/x/gov/types
+// verif:import sdk github.com/cosmos/cosmos-sdk/types
+
+// ---- EVM hook: native governance actions for the events of the gov system contract only (C17) ----
+// verif:func (*HookAdapter).PostTxProcessing
+//@ modifies world(ctx)
+//@ callsite handler [own-logs-only] a1 == log && log.Address.Bytes() == h.govContract.Bytes() && mapHas(h.handlers, log.Topics[0]) && a0 == ctx
+//@ loop 1 continue [propagate]  callsok("handler")
+//@ loop 1 continue [each-once]  ncalls("handler") <= 1
+//@ loop 1 continue [matching-logs-handled] log.Address.Bytes() == h.govContract.Bytes() && mapHas(h.handlers, log.Topics[0]) ==> ncalls("handler") == 1
+//@ ensures [all-logs-visited] result == nil ==> !returnedInLoop(1)
+
+// ---- handlers: the vote is built from the event's own fields and routed through ExecuteMsg --------
+// verif:func (*HookAdapter).HandleVoted
+//@ modifies world(ctx)
+//@ callsite ConvertAndEncode [signer-is-event-voter] data == event.Voter.Bytes()
+//@ callsite ExecuteMsg [fields] log.Topics[0] == h.abi.Events["Voted"].ID && as(dollar_msg, *types.MsgVote).Voter == callres("ConvertAndEncode", 0) && as(dollar_msg, *types.MsgVote).ProposalId == event.ProposalID && int32(as(dollar_msg, *types.MsgVote).Option) == int32(event.VoteOption) && router == h.router && dollar_ctx == ctx
+//@ ensures [routed-once] result == nil ==> ncalls("ExecuteMsg") == 1 && callsok("ExecuteMsg")
+//@ ensures [at-most-once] ncalls("ExecuteMsg") <= 1
+
+// verif:func (*HookAdapter).HandleVotedWeighted
+//@ modifies world(ctx)
+//@ loop 1 invariant len(sdkWeightedVoteOption) == idx1
+//@ loop 1 invariant forall j int :: 0 <= j && j < idx1 ==> int32(sdkWeightedVoteOption[j].Option) == int32(event.Options[j].Option) && sdkWeightedVoteOption[j].Weight == sdk.NewDecWithPrec(int64(event.Options[j].Weight), 2)
+//@ callsite ConvertAndEncode [signer-is-event-voter] data == event.Voter.Bytes()
+//@ callsite ExecuteMsg [fields] log.Topics[0] == h.abi.Events["VotedWeighted"].ID && as(dollar_msg, *types.MsgVoteWeighted).Voter == callres("ConvertAndEncode", 0) && as(dollar_msg, *types.MsgVoteWeighted).ProposalId == event.ProposalID && len(as(dollar_msg, *types.MsgVoteWeighted).Options) == len(event.Options) && router == h.router && dollar_ctx == ctx
+//@ callsite ExecuteMsg [options] forall j int :: 0 <= j && j < len(event.Options) ==> int32(as(dollar_msg, *types.MsgVoteWeighted).Options[j].Option) == int32(event.Options[j].Option) && as(dollar_msg, *types.MsgVoteWeighted).Options[j].Weight == sdk.NewDecWithPrec(int64(event.Options[j].Weight), 2)
+//@ ensures [routed-once] result == nil ==> ncalls("ExecuteMsg") == 1 && callsok("ExecuteMsg")
+//@ ensures [at-most-once] ncalls("ExecuteMsg") <= 1
